@@ -608,19 +608,28 @@ def rule_ident_range(prog):
                 ok = rp.endswith(".range") and rp.startswith("token#")
         n += 1
         out.add("features::DocumentCursor::ident", "Ident.range is the byte range of the token under the cursor", ok, c.loc(cur[0]["sp"]), "")
-    # the range of an Identifier node is the range of the identifier *token*: the token parser skips the comments in front of the
-    # token, so `info(..)` around it must be entered only after those comments were consumed
+    # the *text* range a feature answers with for a name is the range of the identifier token.  The token parsers skip the comments in
+    # front of their token inside the node, so the token range of an Identifier node starts with them (C04 wants exactly that); the
+    # conversion of a node into a text range - AstInfo::to_text_range, which every feature goes through - therefore starts at the first
+    # token that is no comment.  (Until 46b589d the parser excluded the comments from the identifier's token range instead: also accepted.)
     fc = prog.front
     comments = roles.comment_parsers(prog)
+    ttr = [b for b in fc.bodies if b["d"] == "<ast::AstInfo as ToTextRange>::to_text_range"]
+    conv_skips = False
+    for b_ in ttr:
+        for x in hir.nodes_deep(prog, b_["body"], 1, crate=fc):
+            pats = [a_["pat"] for a_ in x["arms"]] if x.get("k") == "Match" else [x["pat"]] if x.get("k") == "LetExpr" else []
+            if any("spl_frontend::tokens::TokenType::Comment" in hir.pat_variants_all(pt) for pt in pats):
+                conv_skips = True
     idp = [b for b in fc.bodies if b["d"].endswith("<ast::Identifier as parser::Parser>::parse")]
-    if not idp:
-        out.missing("<Identifier as Parser>::parse")
+    if not idp or not ttr:
+        out.missing("<Identifier as Parser>::parse / <AstInfo as ToTextRange>::to_text_range")
     else:
         INFO = "spl_frontend::parser::utility::info"
-        ok = None
+        parser_excludes = None
         for x, parents in hir.walk(idp[0]["body"]):
             if x.get("k") == "Call" and (hir.callee(x) or "") == INFO:
-                ok = False
+                parser_excludes = False
                 for pr in parents:
                     if pr.get("k") == "Call" and last(hir.callee(pr) or "") in ("preceded", "pair", "tuple") and pr["args"]:
                         first = hir.strip(pr["args"][0])
@@ -630,12 +639,13 @@ def rule_ident_range(prog):
                         if first.get("k") == "Call" and (hir.callee(first) or "").endswith("multi::many0") and first["args"] and \
                                 ((hir.path_def(hir.strip(first["args"][0])) or {}).get("rp") or (hir.path_def(hir.strip(first["args"][0])) or {}).get("p")) in comments \
                                 and not any(a_ is x for a_ in [pr["args"][0]]):
-                            ok = True
+                            parser_excludes = True
         n += 1
-        out.add("<Identifier as Parser>::parse", "the range of an identifier does not include the comments in front of it", ok, fc.loc(idp[0]["sp"]),
-                "`info(literals::ident)`: the token parser skips comments *inside* the info wrapper, so the identifier's range starts at a "
-                "comment written in front of it; every feature that answers with the range of a name (go-to, references, rename edits, "
-                "hover) then marks - and rename overwrites - the comment too", ("identexact",))
+        out.add("<Identifier as Parser>::parse", "the range of an identifier does not include the comments in front of it",
+                True if (conv_skips or parser_excludes) else (False if parser_excludes is False else None), fc.loc((ttr or idp)[0]["sp"]),
+                "the token parser skips comments *inside* `info(literals::ident)`, so the identifier's token range starts at a comment written in "
+                "front of it, and AstInfo::to_text_range takes the start of the first token as it is: every feature that answers with the range "
+                "of a name (go-to, references, rename edits, hover) then marks - and rename overwrites - the comment too", ("identexact",))
     if n < 2:
         out.missing("identifier range producers (found %d)" % n)
     return out
